@@ -450,3 +450,105 @@ func c11ExecConc(in c11Input) c11ConcResult {
 	_ = c11Settle()
 	return res
 }
+
+// ---------------------------------------------------------------------------------------
+// rushed runs: Subscribe / Broadcast / Close back to back (or all at once), the subscribers'
+// unbuffered channels being received from only AFTER every call has returned: anything received
+// was handed over after Close had returned.
+
+type c11RushResult struct {
+	late   [][]int
+	trials int
+	hang   string
+}
+
+func c11ExecRush(in c11Input) c11RushResult {
+	res := c11RushResult{late: make([][]int, in.Subs)}
+	for trial := 0; trial < in.Reps; trial++ {
+		res.trials++
+		b := broadcaster.New[int]()
+		chs := make([]chan int, in.Subs)
+		cancels := make([]context.CancelFunc, in.Subs)
+		ctxs := make([]context.Context, in.Subs)
+		for i := range chs {
+			chs[i] = make(chan int)
+			ctxs[i], cancels[i] = context.WithCancel(context.Background())
+		}
+		fin := make(chan struct{})
+		if in.Mode == "seq" {
+			go func() {
+				for i := range chs {
+					b.Subscribe(ctxs[i], chs[i])
+				}
+				for v := 1; v <= in.Bcasts; v++ {
+					b.Broadcast(v)
+				}
+				b.Close()
+				close(fin)
+			}()
+		} else {
+			var wg sync.WaitGroup
+			start := make(chan struct{})
+			spawn := func(f func()) {
+				wg.Add(1)
+				go func() { defer wg.Done(); <-start; f() }()
+			}
+			for i := range chs {
+				i := i
+				spawn(func() { b.Subscribe(ctxs[i], chs[i]) })
+			}
+			for v := 1; v <= in.Bcasts; v++ {
+				v := v
+				spawn(func() { b.Broadcast(v) })
+			}
+			spawn(func() { b.Close() })
+			close(start)
+			go func() { wg.Wait(); close(fin) }()
+		}
+		t := time.NewTimer(10 * time.Second)
+		select {
+		case <-fin:
+			t.Stop()
+		case <-t.C:
+			res.hang = "the calls did not all return within 10 s (nobody reads, at most 10 values per subscriber: nothing may block)"
+			return res
+		}
+		// every call has returned: only now do the consumers start receiving
+		quit := make(chan struct{})
+		var mu sync.Mutex
+		got := false
+		for i := range chs {
+			i := i
+			go func() {
+				for {
+					select {
+					case v := <-chs[i]:
+						mu.Lock()
+						res.late[i] = append(res.late[i], v)
+						got = true
+						mu.Unlock()
+					case <-quit:
+						return
+					}
+				}
+			}()
+		}
+		err := c11Settle()
+		close(quit)
+		for _, c := range cancels {
+			c()
+		}
+		if err != nil {
+			res.hang = err.Error()
+			return res
+		}
+		_ = c11Settle()
+		mu.Lock()
+		g := got
+		mu.Unlock()
+		if g {
+			break
+		}
+	}
+	return res
+}
